@@ -50,7 +50,7 @@ def make_value(ctx, d, vk, strlen=2, text_kind="any"):
         return [QualifiedName(Namespace("ex", EX), ctx.str("ql", 2, 1, "name"))]
     if name == "qname_other_prefix":
         # a qualified name whose prefix is symbolic and bound to a symbolic URI: may clash with ex / prov / xsd ...
-        qp, qu = ctx.str("qp", 3, 1, "prefix"), ctx.str("qu", 3, 2, "uri")
+        qp, qu = ctx.str("qp", 3, 1, ctx.params.get("prefix_kind", "prefix")), ctx.str("qu", 3, 2, "uri")
         uri_guard(ctx, [qu], [qp])
         return [QualifiedName(Namespace(qp, qu), ctx.str("ql", 2, 1, "name"))]
     if name == "uri":
@@ -98,7 +98,7 @@ def values_doc(ctx, attr_idx, vk, ns_mode, in_bundle, strlen=2, text_kind="any")
         if mode == "bundle_own_prefix":
             uris.append(ctx.str("bu", 3, 2, "uri"))
             target.add_namespace("ex", uris[-1])
-            bp = (ctx.str("bp", 3, 1, "prefix"),)
+            bp = (ctx.str("bp", 3, 1, ctx.params.get("prefix_kind", "prefix")),)
             uris.append(ctx.str("bu2", 3, 2, "uri"))
             target.add_namespace(bp[0], uris[-1])
         uri_guard(ctx, uris, bp)
@@ -123,7 +123,7 @@ def structure_doc(ctx, k, second=None, in_bundle=False):
     fa = formal(k)
     args = []
     for i, a in enumerate(fa):
-        optional = (k == 1 or i >= 2)
+        optional = (k == 1 or i >= 2) and k != 16  # mentionOf: all three arguments are mandatory
         if not optional:
             present = True
         elif second is None or i <= 2:
@@ -137,15 +137,16 @@ def structure_doc(ctx, k, second=None, in_bundle=False):
         else:
             args.append("ex:a%d" % i)
     element = k in (0, 1, 9)
-    identified = True if element else ctx.bool("identified")
+    bare = ctx.params.get("bare_relations") and k in (14, 15, 16, 17)  # kinds without id/attributes in PROV-N
+    identified = True if element else (False if bare else ctx.bool("identified"))
     ident = ("ex:" + ctx.str("rid", 2, 1, "name")) if identified else None
-    extra = [("ex:k", ctx.bigint("xv"))] if ctx.bool("extra") else None
+    extra = [("ex:k", ctx.bigint("xv"))] if (not bare and ctx.bool("extra")) else None
     add_record(target, k, ident, args, extra)
     if second is not None:
         same = ctx.bool("same_id")
         if second == "same_kind":
             ident2 = ident if (same and identified) else (("ex:" + ctx.str("rid", 2, 1, "name")) if identified else None)
-            add_record(target, k, ident2, args, [("ex:k2", "v")])
+            add_record(target, k, ident2, args, None if bare else [("ex:k2", "v")])
         else:
             ident2 = ident if (same and identified) else "ex:zz"
             add_record(target, 0, ident2 or "ex:zz", None, [("ex:k2", "v")])
